@@ -1,6 +1,7 @@
 package proxy
 
 import (
+	"net/url"
 	"net/http"
 )
 
@@ -142,4 +143,33 @@ func HarnessRelayRequest() {
 	vAssert(s.host == "o.test", "c08.request.host-changed")
 	vAssert(s.body == rb, "c08.request.body-not-passed-through")
 	checkRelayed(ch, s.header, nominated, "request")
+}
+
+// HarnessRelayTarget: the request target exactly as it is on the wire.  The client's
+// request line is parsed the way net/http parses it (url.ParseRequestURI: decoded Path plus
+// RawPath when the encoding is not the default one); what the origin receives must be the same
+// target, octet for octet - percent-encoded reserved characters (%2F, %3F, %23, %25) are not
+// interchangeable with their decoded forms.
+func HarnessRelayTarget() {
+	e := newEnv(symChoice(2), 1<<30)
+	targets := []string{"/plain", "/dir%2Ffile", "/a%3Fb?x=1", "/a%23b", "/100%25", "/sp%20ace", "/%41bc", "/dir/file?x=%2F", "/a;b=c", "/caf%C3%A9"}
+	target := targets[symChoice(len(targets))]
+	u, err := url.ParseRequestURI(target)
+	vAssert(err == nil, "c08.harness-target-does-not-parse")
+	e.o.script = []originResp{{status: 200, header: hdr("Cache-Control", "no-store"), body: []byte("ok")}}
+	req := &http.Request{Method: "GET", Host: "o.test", URL: u, Header: http.Header{}, Proto: "HTTP/1.1", ProtoMajor: 1, ProtoMinor: 1, Body: http.NoBody, RequestURI: target}
+	vClockFreeze(true)
+	var c capture
+	if symChoice(2) == 1 {
+		c = e.tunnelOne(req)
+	} else {
+		c = e.plain(req)
+	}
+	vAssert(c.answered && c.status == 200, "c08.status-not-relayed")
+	vAssert(len(e.o.seen) >= 1, "c04.request-did-not-reach-origin")
+	if len(e.o.seen) == 0 {
+		return
+	}
+	vReach("forwarded")
+	vAssert(e.o.seen[0].uri == target, "c08.request.target-changed-on-the-way-to-the-origin")
 }
